@@ -121,6 +121,9 @@ struct VecRun {
             typename XV::iterator r = v.erase(v.begin() + a[0], v.begin() + a[1]); rx = num(r - v.begin());
             SV::iterator q = w.erase(w.begin() + a[0], w.begin() + a[1]); rs = num(q - w.begin()); }
         else if (o.name == "rsz") { v.resize((size_t) a[0], Ad::mk(a[1])); w.resize((size_t) a[0], a[1]); }
+        else if (o.name == "rsza") { if ((size_t) a[1] >= n) return false; v.resize((size_t) a[0], v[a[1]]); w.resize((size_t) a[0], SV(w)[a[1]]); }
+        else if (o.name == "pba") { if ((size_t) a[0] >= n) return false; v.push_back(v[a[0]]); w.push_back(SV(w)[a[0]]); }
+        else if (o.name == "asgn") { v.assign((size_t) a[0], Ad::mk(a[1])); w.assign((size_t) a[0], a[1]); }
         else if (o.name == "rsz0") { v.resize((size_t) a[0]); w.resize((size_t) a[0]); }
         else if (o.name == "rsv") { v.reserve((size_t) a[0]); w.reserve((size_t) a[0]); }
         else if (o.name == "clr") { v.clear(); w.clear(); }
@@ -358,7 +361,7 @@ struct DequeRun {
             else if (o.name == "cpy") { delete x[1 - cur]; x[1 - cur] = new XD(d, MM()); s[1 - cur] = w; bs[1 - cur] = bs[cur]; }
             else if (o.name == "asg") { d = *x[1 - cur]; w = s[1 - cur]; }
             else if (o.name == "selfasg") { d = *x[cur]; }
-            else if (o.name == "swap") { d.swap(*x[1 - cur]); w.swap(s[1 - cur]); }
+            else if (o.name == "swap") { d.swap(*x[1 - cur]); w.swap(s[1 - cur]); std::swap(bs[0], bs[1]); }     // the block size travels with the blocks
             else if (o.name == "sel") { cur = a[0] ? 1 : 0; }
             else if (o.name == "new") { delete x[cur]; x[cur] = new XD(MM(), (size_t) a[0], bs[cur]); w.assign((size_t) a[0], 0); }
             else ok = false;
@@ -406,11 +409,11 @@ struct StrRun {
             else if (o.name == "inso") { if ((size_t) a[0] > n) ok = false; else { t.insert((XalanDOMString::size_type) a[0], to); w.insert((size_t) a[0], wo); } }
             else if (o.name == "er") { if ((size_t) (a[0] + a[1]) > n) ok = false; else { t.erase((XalanDOMString::size_type) a[0], (XalanDOMString::size_type) a[1]); w.erase((size_t) a[0], (size_t) a[1]); } }
             else if (o.name == "ernpos") { if ((size_t) a[0] > n) ok = false; else { t.erase((XalanDOMString::size_type) a[0]); w.erase((size_t) a[0]); } }
-            else if (o.name == "erit") { if (!(a[0] <= a[1] && (size_t) a[1] <= n) || bufempty(t)) ok = false; else { XalanDOMString::iterator r = t.erase(t.begin() + a[0], t.begin() + a[1]); rx = num(r - t.begin()); std::u16string::iterator q = w.erase(w.begin() + a[0], w.begin() + a[1]); rs = num(q - w.begin()); } }
-            else if (o.name == "eritempty") { if (!bufempty(t)) ok = false; else { t.erase(t.begin(), t.end()); w.erase(w.begin(), w.end()); } }
+            else if (o.name == "erit") { if (!(a[0] <= a[1] && (size_t) a[1] <= n)) ok = false; else { XalanDOMString::iterator r = t.erase(t.begin() + a[0], t.begin() + a[1]); rx = num(r - t.begin()); std::u16string::iterator q = w.erase(w.begin() + a[0], w.begin() + a[1]); rs = num(q - w.begin()); } }
+            else if (o.name == "eritempty") { if (!bufempty(t)) ok = false; else { XalanDOMString::iterator r = t.erase(t.begin(), t.end()); rx = num(r - t.begin()); std::u16string::iterator q = w.erase(w.begin(), w.end()); rs = num(q - w.begin()); } }
             else if (o.name == "erit1") { if ((size_t) a[0] >= n) ok = false; else { XalanDOMString::iterator r = t.erase(t.begin() + a[0]); rx = num(r - t.begin()); std::u16string::iterator q = w.erase(w.begin() + a[0]); rs = num(q - w.begin()); } }
-            // resize growing a string whose buffer already holds a terminator is known-finding class K-C20-3 ("rszgrow"); rsz0 growing would create NUL code units (outside the driven domain)
-            else if (o.name == "rsz") { if ((size_t) a[0] > n && !bufempty(t)) ok = false; else { t.resize((XalanDOMString::size_type) a[0], (XalanDOMChar) a[1]); w.resize((size_t) a[0], (char16_t) a[1]); } }
+            // rsz0 growing would create NUL code units (outside the driven domain)
+            else if (o.name == "rsz") { { t.resize((XalanDOMString::size_type) a[0], (XalanDOMChar) a[1]); w.resize((size_t) a[0], (char16_t) a[1]); } }
             else if (o.name == "rszgrow") { t.resize((XalanDOMString::size_type) a[0], (XalanDOMChar) a[1]); w.resize((size_t) a[0], (char16_t) a[1]); }
             else if (o.name == "rsz0") { if ((size_t) a[0] > n) ok = false; else { t.resize((XalanDOMString::size_type) a[0]); w.resize((size_t) a[0]); } }
             else if (o.name == "rsv") { t.reserve((XalanDOMString::size_type) a[0]); w.reserve((size_t) a[0]); }
